@@ -42,6 +42,7 @@ func genRoute(r *rng, n int, tier string, emit func(string)) {
 	for _, c := range []string{
 		"tree S a 0 1 N a 0 0 ; msg a k 01 ; msg b k 02",
 		"tree S a 0 1 N a 0 1 N a 0 0 ; msg a k %1024 ; msg a k %1025 ; msg a k %70000",
+		"treed S a 0 2 N a 0 1 N a 0 0 N a 0 1 N b 0 0 ; msg a k 01 ; msg b k 02", // nodes sharing an id: each one still gets the message
 		"tree S - 0 2 N a 1 2 N a 0 0 N b 0 1 N a,b 0 0 N a 0 0 ; msg a k - ; msg b k2 ff ; msg zz k -",
 		"tree S a 0 1 N a 0 0 ; msg a k 01 ; restart ; msg a k 02 ; resub -1 b ; msg b k 03 ; restart ; msg b k 04 ; msg a k 05",
 		"tree S a,b 1 1 N a 1 1 N a 1 1 N a 0 0 ; msg a k 00 ; resub 2 - ; msg a k 00 ; resub -1 b ; msg a k 01 ; resub 0 a,b ; msg b k 03",
@@ -74,7 +75,7 @@ func genRoute(r *rng, n int, tier string, emit func(string)) {
 		for j := 0; j < nroots; j++ {
 			build(1)
 		}
-		hd := "tree S " + genSubs(r) + " " + b01(r.chance(25)) + " " + strconv.Itoa(nroots) + " " + strings.Join(parts, " ")
+		hd := r.pickS("tree", "tree", "tree", "tree", "treed") + " S " + genSubs(r) + " " + b01(r.chance(25)) + " " + strconv.Itoa(nroots) + " " + strings.Join(parts, " ")
 		ops := []string{hd}
 		for j := r.intn(8) + 1; j > 0; j-- {
 			if r.chance(8) {
@@ -109,9 +110,10 @@ func execRoute(input string) string {
 	registerExecTypes()
 	segs := strings.Split(input, ";")
 	toks := strings.Fields(segs[0])
-	if len(toks) < 5 || toks[0] != "tree" || toks[1] != "S" {
+	if len(toks) < 5 || (toks[0] != "tree" && toks[0] != "treed") || toks[1] != "S" {
 		return "bad-input"
 	}
+	dupIDs := toks[0] == "treed" // pairs of nodes carry the same id (configurations built in code get no id check at all)
 	run := nextRunID()
 	src := &sourceScript{subs: subsList(toks[2]), failRecv: toks[3] == "1", stopAt: -1}
 	currentSource = src
@@ -125,6 +127,9 @@ func execRoute(input string) string {
 		}
 		idx := len(specs)
 		sp := &nodeSpec{idx: idx, id: fmt.Sprintf("r%d_%d", run, idx), kind: "sync", wPass: 100, subs: subsList(toks[pos+1]), failRecv: toks[pos+2] == "1"}
+		if dupIDs {
+			sp.id = fmt.Sprintf("r%d_%d", run, idx/2)
+		}
 		specs = append(specs, sp)
 		nc, _ := strconv.Atoi(toks[pos+3])
 		pos += 4
@@ -152,6 +157,7 @@ func execRoute(input string) string {
 	// a quarter of the nodes subscribe when they are constructed (before the executor calls Init), the others in Setup
 	factorySubsMu.Lock()
 	factorySubs = nil
+	factorySpecs = append([]*nodeSpec(nil), post...)
 	for _, sp := range post {
 		if sp.idx%4 == 1 {
 			factorySubs = append(factorySubs, sp.subs)
@@ -163,6 +169,7 @@ func execRoute(input string) string {
 	ex, err := executor.New(executor.WithConfig(cfg))
 	factorySubsMu.Lock()
 	factorySubs = nil
+	factorySpecs = nil
 	factorySubsMu.Unlock()
 	if err != nil {
 		return "harness-error " + err.Error()
@@ -246,9 +253,8 @@ func execRoute(input string) string {
 			if i == -1 {
 				(*ex.GetSource()).(*vsource).Subscribe(subsList(f[2]))
 			} else if i >= 0 && i < len(specs) {
-				n := ex.FindNodeByID(specs[i].id)
-				if n != nil {
-					n.NodeProcessor.(*vsync).Subscribe(subsList(f[2]))
+				if specs[i].self != nil {
+					specs[i].self.Subscribe(subsList(f[2]))
 				}
 			}
 			outs = append(outs, ".")
